@@ -611,12 +611,12 @@ package header
 //@   modifies elems(b)
 
 //@ func AddTCPOptionPadding props C15 C06
-//@   requires 0 <= offset && offset <= len(options) - 3
+//@   requires 0 <= offset && offset <= len(options) && (4 - offset % 4) % 4 <= len(options) - offset
 //@   ensures result == (4 - offset % 4) % 4 && (offset + result) % 4 == 0
 //@   ensures forall(k, offset, offset + result, options[k] == 1)
-//@   loop 1 invariant offset <= i && i <= offset + paddingToAdd && 0 <= paddingToAdd && paddingToAdd <= 3
+//@   loop 1 invariant offset <= i && i <= offset + paddingToAdd && 0 <= paddingToAdd && paddingToAdd <= 3 && paddingToAdd == (4 - offset % 4) % 4
 //@   loop 1 invariant forall(k, offset, i, options[k] == 1)
-//@   modifies elems(options[offset:offset+3])
+//@   modifies elems(options[offset:offset+(4 - offset % 4) % 4])
 
 // ---------------------------------------------------------------------------
 // address helpers
